@@ -363,7 +363,7 @@ def parse_block(body):
     cur = None
     for line in body.split("\n"):
         s = line.strip()
-        if s.startswith("@entry") or s.startswith("@loop") or s.startswith("@before") or s.startswith("@after") or s.startswith("@closure") \
+        if s.startswith("@entry") or s.startswith("@loop_end") or s.startswith("@loop_start") or s.startswith("@loop") or s.startswith("@before") or s.startswith("@after") or s.startswith("@closure") \
                 or s.startswith("@rewrite"):
             parts = shlex.split(s)
             cur = dict(kind=parts[0][1:], args=parts[1:], text=[])
@@ -494,7 +494,18 @@ def gen_fn(repo, d, body, report):
     n_loop_specs = 0
     for sub in subs:
         text = "\n".join(sub["text"]).rstrip()
-        if sub["kind"] == "loop":
+        if sub["kind"] in ("loop_end", "loop_start"):
+            # ghost text at the structural end / start of loop k's body (no statement anchor needed)
+            k = int(sub["args"][0])
+            if k >= len(loops):
+                raise LostAnchor(f"{d['file']}::{d['name']}: loop ordinal {k} not found ({len(loops)} loops)")
+            if sub["kind"] == "loop_end":
+                lc = toks[loops[k]["body_close"]]
+                edits.add(lc.start, lc.start, "\n" + text + "\n", "GHOST", f"loop {k} end")
+            else:
+                lo_ = toks[loops[k]["body_open"]]
+                edits.add(lo_.end, lo_.end, "\n" + text + "\n", "GHOST", f"loop {k} start")
+        elif sub["kind"] == "loop":
             k = int(sub["args"][0])
             if k >= len(loops):
                 raise LostAnchor(f"{d['file']}::{d['name']}: loop ordinal {k} not found ({len(loops)} loops)")
